@@ -47,6 +47,15 @@ package meta
 //@   ensures result == si_contain(si.Min, si.Max, shardKey)
 //@   assigns nothing
 
+// Range pruning on the read side works on a PREFIX of the shard key (measurement + the tag equalities of the query).
+// It may drop a shard only if no key starting with the prefix can live there; in particular the key that IS the prefix
+// lives in the shard whose [Min, Max) contains it, lower bound included - exactly the shard the writer chose.
+// (Lexicographic fact used: a prefix of a string is not greater than the string.)
+//@ axiom forall s string, k int :: 0 <= k && k <= len(s) ==> !(s < s[:k])
+//@ func ShardInfo.ContainPrefix
+//@   ensures [shard_holding_the_prefix_key_is_kept] si_contain(si.Min, si.Max, prefix) ==> result
+//@   assigns nothing
+
 // DestShard returns the first shard whose key range contains the key, nil iff none does.
 //@ func (*ShardGroupInfo).DestShard
 //@   requires sgi != nil
@@ -417,11 +426,15 @@ package meta
 //@     requires !(mst in rp.MstVersions) ==> arg7 == 0
 //@     requires arg6 == mst && arg1 == rp
 
-// Only the named measurement is removed, and only once it has been marked deleted.
+// Only the named measurement is removed, and only once it has been marked deleted. Nothing else is forgotten: in
+// particular the version memory of the name (MstVersions) stays, so a later re-creation gets the NEXT version and a
+// measurement identifier is never handed out twice (C16), and the new measurement does not see the old series (C13).
+//@ prop C13 C16
 //@ func (*Data).DropMeasurement
 //@   requires data != nil
 //@   call delete
-//@     requires arg1 == nameWithVer && arg0 == rpi.Measurements && m.MarkDeleted && k == nameWithVer
+//@     requires [only_the_marked_measurement_entry] arg1 == nameWithVer && arg0 == rpi.Measurements && m.MarkDeleted && k == nameWithVer
+//@ prop C13
 
 // Every map entry removed by DROP DATABASE is keyed by the dropped name.
 //@ func (*Data).DropDatabase
